@@ -247,6 +247,32 @@ def fam_newfb(rng, guards):
     return out
 
 
+def fam_round3(rng, guards):
+    """(a) two listening sockets (in the place of the IPv4 and the IPv6 one): two connections arrive on
+    different sockets while the listener thread is busy with a silent third one, so that one select()
+    round reports both; every connection must be served.  (b) UTF-8 clipboard broadcast to
+    ExtendedClipboard clients that must be notified (their Caps allow no unsolicited text), with and
+    without clients asking for the text (Request) from their input thread meanwhile"""
+    out = []
+    for order in ((1, 2), (2, 1)):
+        for gap in (0, 30):
+            L = [_cfg(rng, 16, 8, 2, 2, 300, guards),
+                 "peer 0 abandon 0 0 0", "peer 1 stay 0 0 0", "peer 2 stay 0 0 32", "peer 3 stay 0 0 32",
+                 "connect 0", "sleep 20", "connect %d" % order[0]]
+            if gap: L += ["sleep %d" % gap]
+            L += ["connect %d" % order[1], "sleep 400", "connect 3", "mark 1 1 5 5 %d" % rng.getrandbits(20), "settle 4000", "shutdown", "cleanup"]
+            out.append(("fam-round3", "\n".join(L) + "\n", None))
+    for lis in (0, 1):
+        for flags in (8, 24):
+            for n in (5, 300):
+                L = [_cfg(rng, 16, 8, 2, lis, 300, guards, 0, 8),
+                     "peer 0 stay 0 0 %d" % flags, "peer 1 stay 0 0 0", "peer 2 leave 3 0 %d" % flags,
+                     "connect 0", "connect 1", "connect 2", "sleep 300", "cututf8 %d 1" % n, "sleep 50", "cututf8 %d 1" % (n + 1),
+                     "mark 1 1 5 5 %d" % rng.getrandbits(20), "cututf8 3 1", "bell", "settle 3000", "shutdown", "cleanup"]
+                out.append(("fam-round3", "# noinclusion (clipboard answers written by the input thread)\n" + "\n".join(L) + "\n", None))
+    return out
+
+
 def gen_cycles(rng, guards, n):
     seed = rng.getrandbits(40)
     L = ["cfg 16 8 %d %d 300 %d %d %d 400000 80 3000 %d" % (rng.choice([1, 2]), rng.randint(0, 1), seed, rng.choice([0, 1, 2]), rng.randint(1, 4), guards),
@@ -344,7 +370,7 @@ def analyse(script, rc, out, err):
     ops = [l.split() for l in script.splitlines() if l.strip() and not l.startswith("#")]
     has_soft = any(o[0] == "peer" and (int(o[5]) & 1) for o in ops)
     null_fb = any(o[0] == "cututf8" and o[2] == "0" for o in ops)
-    cfgl = ops[0]; listen = cfgl[4] == "1"; guards = int(cfgl[12]) if len(cfgl) > 12 else 0
+    cfgl = ops[0]; listen = cfgl[4] in ("1", "2"); guards = int(cfgl[12]) if len(cfgl) > 12 else 0
     ended = [r for r in res if r.startswith("end ")]
     st = {"events": len(evs), "wfail": sum(1 for e in evs if " wfail " in e), "waits": sum(1 for e in evs if " wait " in e),
           "clients": 0, "steps": 0, "mode": cfgl[7], "listen": int(listen)}
@@ -438,6 +464,8 @@ def analyse(script, rc, out, err):
             add("mutex/thread misuse: " + what, fin, "\n".join(threads))
         elif t[0] == "sanitizer-abort" and not a:
             add("sanitizer abort without report", None, err[-1500:])
+        elif t[0] == "unserved":
+            add("a connection was accepted at socket level but never served: " + " ".join(t[1:]), None, None)
         elif t[0] in ("harness-error", "peer-stuck", "gone-unknown-client"):
             add(" ".join(t), None, None)
         elif t[0] == "proto":
@@ -548,7 +576,7 @@ def run(ctx):
         reps = 1 if ctx.tier == "quick" else 6
         for _ in range(reps):
             scripts += fam_stall(ctx.rng, base_guards) + fam_iterhold(ctx.rng, base_guards) + fam_newfb(ctx.rng, base_guards)
-            scripts += fam_nonshared(ctx.rng, base_guards) + fam_inflight(ctx.rng, base_guards)
+            scripts += fam_nonshared(ctx.rng, base_guards) + fam_inflight(ctx.rng, base_guards) + fam_round3(ctx.rng, base_guards)
         n = 2000 if ctx.tier == "quick" else 40000
         for k in range(n):
             r = ctx.rng.random()
